@@ -495,7 +495,7 @@ func driveLruConc(opt *Options) error {
 				if err != nil {
 					return
 				}
-				s.runRandom(15+r.Intn(25), quiet, []int{1, 2, 3, -1, -2}[:2+r.Intn(4)])
+				s.runRandom(15+r.Intn(25), quiet, []int{1, 2, 3, -1, 4, 5, -2}[:2+r.Intn(6)])
 				flush(s, true)
 			}(i)
 		}
@@ -507,7 +507,7 @@ func driveLruConc(opt *Options) error {
 			if err != nil {
 				return err
 			}
-			s.runStress(6, []int{1, 2, 3, -1}[:2+r.Intn(3)])
+			s.runStress(6, []int{1, 2, 3, -1, 4, 5}[:2+r.Intn(5)])
 			flush(s, true)
 		}
 	default:
